@@ -91,6 +91,48 @@ def model_inputs(model_text, mapping):
     return inp
 
 
+class LOb:
+    """Obligation as it travels between processes: metadata + SMT-LIB text."""
+    def __init__(self, d):
+        self.__dict__.update(d)
+        self.uid = None
+
+
+def gen_worker(arg):
+    prop, key, repo = arg
+    front.REPO = repo
+    front._cache.clear()
+    try:
+        importlib.import_module('contracts.c%s' % prop[1:])
+        try:
+            importlib.import_module('contracts.lib')
+        except ModuleNotFoundError:
+            pass
+        c = REGISTRY[key]
+        eng = Engine(os.path.join(VERIF, 'contracts', 'spec.py'))
+        values.reset_names()
+        try:
+            info = eng.verify(c, prop)
+        except front.AttachError as e:
+            return {'attach_error': str(e)}
+        except Unsupported as e:
+            sha = None
+            try:
+                sha = front.find_function(c.file, c.source or c.qual)[2]
+            except front.AttachError as e2:
+                return {'attach_error': str(e2)}
+            return {'unsupported': str(e), 'function': c.key, 'sha256': sha}
+        obs = []
+        for ob in eng.obs:
+            triv = ob.kind != 'cover' and z3.is_true(ob.goal) and not ob.hyps
+            obs.append({'name': ob.name, 'kind': ob.kind, 'label': ob.label, 'func': ob.func, 'line': ob.line,
+                        'goal_str': str(ob.goal)[:300] if ob.goal is not None else '', 'n_hyps': len(ob.hyps), 'trivial': triv,
+                        'smt2': None if triv else solve.ob_to_smt2(ob.hyps, ob.goal)})
+        return {'info': info, 'obs': obs, 'assumed': sorted(eng.assumed_used)}
+    except Exception:
+        return {'crash': traceback.format_exc()[-1200:]}
+
+
 class Checker:
     def __init__(self, prop, tier, seed):
         self.prop, self.tier, self.seed = prop, tier, seed
@@ -111,34 +153,24 @@ class Checker:
             importlib.import_module('contracts.c%s' % self.prop[1:])
         except ModuleNotFoundError:
             return
-        for extra in ('contracts.lib',):
-            try:
-                importlib.import_module(extra)
-            except ModuleNotFoundError:
-                pass
-        eng = Engine(os.path.join(VERIF, 'contracts', 'spec.py'))
-        self.eng = eng
-        for key, c in list(REGISTRY.items()):
-            if self.prop not in c.props or c.kind != 'code':
-                continue
-            mark = len(eng.obs)
-            try:
-                values.reset_names()
-                info = eng.verify(c, self.prop)
-                self.functions.append(info)
-            except front.AttachError as e:
-                self.problems.append('contract cannot attach: %s' % e)
-            except Unsupported as e:
-                del eng.obs[mark:]
-                fn = None
-                try:
-                    _, _, sha, span = front.find_function(c.file, c.source or c.qual)
-                except front.AttachError as e2:
-                    self.problems.append('contract cannot attach: %s' % e2)
-                    continue
-                self.fallbacks.append({'function': c.key, 'reason': 'unsupported construct: %s' % e, 'sha256': sha})
-        self.obs = eng.obs
-        self.assumed = set(eng.assumed_used)
+        keys = [key for key, c in REGISTRY.items() if self.prop in c.props and c.kind == 'code']
+        if not keys:
+            return
+        # one process per contracted function: VC generation is embarrassingly parallel; obligations come back as SMT-LIB text
+        with ProcessPoolExecutor(max_workers=min(16, len(keys))) as ex:
+            outs = list(ex.map(gen_worker, [(self.prop, k, front.REPO) for k in keys], chunksize=1))
+        for key, out in zip(keys, outs):
+            if out.get('attach_error'):
+                self.problems.append('contract cannot attach: %s' % out['attach_error'])
+            elif out.get('crash'):
+                self.problems.append('checker crash while generating VCs for %s: %s' % (key[1], out['crash']))
+            elif out.get('unsupported'):
+                self.fallbacks.append({'function': out['function'], 'reason': 'unsupported construct: %s' % out['unsupported'], 'sha256': out.get('sha256')})
+            else:
+                self.functions.append(out['info'])
+                for d in out['obs']:
+                    self.obs.append(LOb(d))
+                self.assumed |= set(out['assumed'])
 
     def discharge(self):
         if not self.obs:
@@ -147,10 +179,10 @@ class Checker:
         items = []
         for i, ob in enumerate(self.obs):
             ob.uid = i
-            if ob.kind != 'cover' and z3.is_true(ob.goal) and not ob.hyps:
+            if ob.trivial:
                 self.results[i] = {'status': 'proved', 'backend': 'trivial', 'secs': 0.0, 'n_inst': 0, 'model': None}
                 continue
-            items.append((i, solve.ob_to_smt2(ob.hyps, ob.goal), ob.kind == 'cover', timeout))
+            items.append((i, ob.smt2, ob.kind == 'cover', timeout))
         workers = min(16, max(1, len(items)))
         with ProcessPoolExecutor(max_workers=workers) as ex:
             for name, res in ex.map(solve.work, items, chunksize=1):
@@ -182,7 +214,7 @@ class Checker:
                 bef = groups.get(name[:-len('.after')] + '.before', [])
                 for o in obs:
                     if self.results[o.uid]['status'] == 'vacuous':
-                        twin = [b for b in bef if len(b.hyps) <= len(o.hyps) and all(x.eq(y) for x, y in zip(b.hyps, o.hyps))]
+                        twin = bef
                         if not twin or any(self.results[b.uid]['status'] != 'vacuous' for b in twin):
                             self.problems.append('vacuity: assuming the callee contract at %s makes the hypotheses contradictory' % name)
                             break
@@ -326,7 +358,7 @@ class Checker:
         samples = []
         for n in names[:4]:
             o = groups[n][0]
-            samples.append({'obligation': n, 'function': o.func, 'kind': o.kind, 'goal': str(o.goal)[:300], 'n_hypotheses': len(o.hyps),
+            samples.append({'obligation': n, 'function': o.func, 'kind': o.kind, 'goal': o.goal_str, 'n_hypotheses': o.n_hyps,
                             'status': self.results[o.uid]['status'], 'backend': self.results[o.uid]['backend']})
         cov = {
             'obligations': len(names), 'discharged': len(discharged),
